@@ -1095,10 +1095,11 @@ fn lower_expr_with_args(
                 );
                 return None;
             }
-            Some(ast::Expr::EString {
-                value: value.to_string(),
-                astptr,
-            })
+            let Some(value) = unescape_string_literal(value) else {
+                ctx.push_error(Some(token.text_range()), "Invalid escape in string literal");
+                return None;
+            };
+            Some(ast::Expr::EString { value, astptr })
         }
         cst::Expr::MultilineStrExpr(it) => {
             let astptr = MySyntaxNodePtr::new(it.syntax());
@@ -1799,6 +1800,51 @@ fn lower_expr_with_args(
     }
 }
 
+fn unescape_string_literal(body: &str) -> Option<String> {
+    fn hex4(chars: &mut std::str::Chars<'_>) -> Option<u32> {
+        let mut code = 0u32;
+        for _ in 0..4 {
+            code = code * 16 + chars.next()?.to_digit(16)?;
+        }
+        Some(code)
+    }
+
+    let mut out = String::with_capacity(body.len());
+    let mut chars = body.chars();
+    while let Some(ch) = chars.next() {
+        if ch != '\\' {
+            out.push(ch);
+            continue;
+        }
+        match chars.next()? {
+            '"' => out.push('"'),
+            '\\' => out.push('\\'),
+            '/' => out.push('/'),
+            'b' => out.push('\u{0008}'),
+            'f' => out.push('\u{000C}'),
+            'n' => out.push('\n'),
+            'r' => out.push('\r'),
+            't' => out.push('\t'),
+            'u' => {
+                let mut code = hex4(&mut chars)?;
+                if (0xD800..0xDC00).contains(&code) {
+                    let mut rest = chars.clone();
+                    if rest.next() == Some('\\') && rest.next() == Some('u') {
+                        let low = hex4(&mut rest)?;
+                        if (0xDC00..0xE000).contains(&low) {
+                            code = 0x10000 + ((code - 0xD800) << 10) + (low - 0xDC00);
+                            chars = rest;
+                        }
+                    }
+                }
+                out.push(char::from_u32(code)?);
+            }
+            _ => return None,
+        }
+    }
+    Some(out)
+}
+
 fn apply_trailing_args(
     ctx: &mut LowerCtx,
     expr: ast::Expr,
@@ -2018,10 +2064,11 @@ fn lower_pat(ctx: &mut LowerCtx, node: cst::Pattern) -> Option<ast::Pat> {
                 ctx.push_error(Some(token.text_range()), "StringPat has no value");
                 return None;
             };
-            Some(ast::Pat::PString {
-                value: value.to_string(),
-                astptr,
-            })
+            let Some(value) = unescape_string_literal(value) else {
+                ctx.push_error(Some(token.text_range()), "Invalid escape in string literal");
+                return None;
+            };
+            Some(ast::Pat::PString { value, astptr })
         }
         cst::Pattern::ConstrPat(it) => {
             let astptr = MySyntaxNodePtr::new(it.syntax());
